@@ -1040,6 +1040,11 @@ static bool upipe_h265f_activate_sps(struct upipe *upipe, uint32_t sps_id)
     ubuf_block_stream_skip_bits(s, 1);
     if (long_term_ref_pics) {
         uint32_t num_long_term_ref_pics = upipe_h26xf_stream_ue(s);
+        if (num_long_term_ref_pics > 32) {
+            upipe_err(upipe, "invalid SPS (num_long_term_ref_pics_sps)");
+            ubuf_block_stream_clean(s);
+            return false;
+        }
         for (int i = 0; i < num_long_term_ref_pics; i++) {
             upipe_h26xf_stream_fill_bits(s, log2_max_pic_order_cnt + 1);
             ubuf_block_stream_skip_bits(s, log2_max_pic_order_cnt + 1);
